@@ -2,10 +2,27 @@
 from common import *
 import colorgen
 
-CLAIMED = False
+CLAIMED = True
 LEVEL = 'proof'
-LEVEL_TEXT = 'TODO'
-LEVEL_NOTE = 'TODO'
+LEVEL_TEXT = ('Proof: 26 Coq theorems. convert_channel is modelled exactly as written (24-bit reciprocal, constants regenerated from '
+              'conversion.rs): for all 64 (from bits, to bits) pairs in 1..8 and every value it returns the representable value nearest to '
+              'the exactly scaled one (2*|r*from_max - v*to_max| <= from_max), is monotone, maps 0 to 0 and max to max, widen-then-narrow is '
+              'the identity, and no intermediate leaves u32 (decided by vm_compute; monotonicity derived). Whole colours, quantified over the '
+              'GENERATED list of all 182 provided From impls (= every ordered pair of the 14 types) and all source values: every conversion '
+              'maps black to black and white to white; RGB->RGB, Gray->Gray and Gray->RGB give in every channel the nearest value, '
+              'monotonically, each output channel depending on the same input channel only; equal depths (RGB<->BGR) keep all channels; '
+              'converting to a type with at least as many bits per channel and back is the identity; Gray->RGB->Gray is the identity when '
+              'every RGB channel has at least as many bits; luma of a gray Rgb888 is that gray, luma is monotone, weights sum to 256 without '
+              'u16 overflow; RGB->Gray equals the 8-bit luma of the 8-bit-scaled channels scaled to the target (double rounding, as coded) '
+              'and is monotone in every channel; Gray->BinaryColor is On exactly for luma >= 2^(bits-1), RGB->BinaryColor exactly for '
+              '8-bit luma >= 128; BinaryColor->X gives BLACK/WHITE. The macro bodies are transcribed once in coq/Model/Colormodel.v and tied '
+              'to the code by the translator (fails closed on any change of a macro body) and by running the extracted model against the '
+              'real From impls for all 196 type pairs.')
+LEVEL_NOTE = ('"Nearest" is not claimed (and is false in general) for RGB->Gray and RGB->BinaryColor, which round twice; the theorems state '
+              'what the code computes plus extremes and monotonicity, as the property demands. Trusted: Coq kernel incl. vm_compute, the regex '
+              'translator, extraction, the drivers; u8/u16/u32 arithmetic is modelled in Z with the no-overflow facts proved '
+              '(C13_channel_no_overflow, C13_luma_weights). The Rust-side search p_conv checks the property itself against exact integer '
+              'rounding on every source value of every pair (2^24 values for the 24-bit types).')
 RULE = ('correspondence (extracted model vs real library): conv A B = storage of B::from(A::from(Raw::new(v))) for EVERY ordered pair of the 14 colour '
         'types of the generated table (the 182 provided From impls + the reflexive one) on storage values v: all values for 8-bit storage, '
         'arithmetic progressions (random start, stride in {1, 257, 4099, 65537}) covering 2^13 (quick) / 2^16 (thorough) values per pair for '
@@ -15,8 +32,10 @@ RULE = ('correspondence (extracted model vs real library): conv A B = storage of
         'gray/rgb -> binary upper half, binary -> black/white; for every pair over ALL source values (2^24 for the 24-bit types). '
         'Non-trivial = result line not empty; distinct = distinct case lines.')
 EXHAUSTIVE = {'quick': False, 'thorough': False}
-ASSUMPTIONS = []
-TRUSTED = []
+ASSUMPTIONS = ['a colour value of type t is an integer 0 <= c < 2^(used bits of t) (C12 shows every constructor yields one)']
+TRUSTED = ['modelled, not verified: u8/u16/u32 `*`, `/`, `<<`, `>>`, `as` as Z operations (no-overflow facts are theorems)',
+           'translate/gen_colors.py: regex reading of the impl_*conversion!/impl_*binary! rows and of the literal constants; literal shape '
+           'checks of convert_channel, luma and the seven conversion macro bodies that Model/Colormodel.v transcribes']
 PARTIAL = []
 
 
